@@ -85,3 +85,11 @@ META["C03"] = dict(
     level_text="Exploration: generated configurations (windows 1 byte..16 MiB, write queue and buffers down to 16 bytes, compression, 1..3 connections, GOMAXPROCS 1/2/16) with up to 24 concurrent channels whose scripts cover both directions at once, payloads on opening and closing frames, closes by SendAndClose/Free/handler return and early ends. Every received message must be exactly the i-th message sent on that channel and direction; the sequence must be complete whenever the receiver read to the end status without ending the channel itself and the sender had finished; no connection may close and no library panic may be logged.",
     level_note="Interleavings are sampled by the Go scheduler plus generated yields and GOMAXPROCS, not enumerated. Completion uses a 60 s bound per case.",
 )
+
+META["C07"] = dict(
+    engine="net",
+    design_ref="DESIGN.md 3/C07",
+    technique="model-based property testing: bounded-exhaustive exploration of a reference flow-control model (all interleavings, W<=16/40) plus rapid-generated conformance scripts driving the real implementation as sender and as receiver against a scripted wire-level peer, and end-to-end liveness runs",
+    level_text="Exploration with an exhaustive model layer: the stated admission/acknowledgement rules are explored over every window 1..16 (40 in thorough), every size sequence over the relative alphabet and every interleaving, checking the outstanding-bytes bound and absence of stuck states; the implementation is then held to the model frame by frame: which Send is admitted or blocks, after which scripted update it is released, that closing payloads ignore the window, that cancel/peer-close release a blocked Send, and (through a FIFO fence on a second channel) exactly when and with what delta the receiver acknowledges.",
+    level_note="The model is written from the property statement; conformance uses a 60 ms observation for 'must block' (miss-only direction) and a 10 s bound for 'must happen'. Real-concurrency wake-up races are sampled by the end-to-end layer, not enumerated.",
+)
